@@ -512,9 +512,10 @@ func (w *World) makeWallets(n *node.Node) error {
 	specs := []spec{
 		{"det-plain.wlt", wallet.Options{Type: wallet.WalletTypeDeterministic, Seed: detMnemonic(w.Opts.ChainTag+"-det", 16), Label: "det plain", GenerateN: 3}},
 		{"det-text.wlt", wallet.Options{Type: wallet.WalletTypeDeterministic, Seed: "free text seed é世 " + w.Opts.ChainTag, Label: "det text", GenerateN: 2}},
-		{"det-enc.wlt", wallet.Options{Type: wallet.WalletTypeDeterministic, Seed: detMnemonic(w.Opts.ChainTag+"-det-enc", 16), Label: "det enc", GenerateN: 2, Encrypt: true, Password: []byte("pw-det")}},
+		{"det-enc.wlt", wallet.Options{Type: wallet.WalletTypeDeterministic, Seed: detMnemonic(w.Opts.ChainTag+"-det-enc", 16), Label: "det enc", GenerateN: 2, Encrypt: true, Password: []byte(WalletPassword)}},
+		{"det-enc3.wlt", wallet.Options{Type: wallet.WalletTypeDeterministic, Seed: detMnemonic(w.Opts.ChainTag+"-det-enc3", 16), Label: "det enc 3", GenerateN: 1, Encrypt: true, Password: []byte(WalletPassword)}},
 		{"bip44-plain.wlt", wallet.Options{Type: wallet.WalletTypeBip44, Seed: bipSeed, Label: "bip44 plain", GenerateN: 2}},
-		{"bip44-enc.wlt", wallet.Options{Type: wallet.WalletTypeBip44, Seed: bipSeed2, SeedPassphrase: "passphrase", Label: "bip44 enc", GenerateN: 2, Encrypt: true, Password: []byte("pw-bip")}},
+		{"bip44-enc.wlt", wallet.Options{Type: wallet.WalletTypeBip44, Seed: bipSeed2, SeedPassphrase: "passphrase", Label: "bip44 enc", GenerateN: 2, Encrypt: true, Password: []byte(WalletPassword)}},
 		{"xpub.wlt", wallet.Options{Type: wallet.WalletTypeXPub, XPub: xpub, Label: "xpub", GenerateN: 2}},
 		{"collection.wlt", wallet.Options{Type: wallet.WalletTypeCollection, Label: "collection", CollectionPrivateKeys: colKeys}},
 	}
